@@ -380,7 +380,7 @@ theorem checkLoop_sync {env : Pipe.Env} {refent l10nent : Pipe.PEnt} :
     exact ⟨rfl, Sync.refl _ _⟩
   | c :: cs, a1, a2, skips, b1, b2, sk1, sk2, hs, h1, h2 => by
     simp only [Pipe.checkLoop] at h1 h2
-    cases hpos : Pos.resolveCheckPos env.l10nText .plain l10nent.entry c.pos with
+    cases hpos : Pipe.resolvePos env.l10nText env.cls l10nent c.pos with
     | none => rw [hpos] at h1; cases h1
     | some lc =>
       obtain ⟨line, col⟩ := lc
@@ -455,7 +455,7 @@ theorem step_sync {env : Pipe.Env} {ref l10n : List Pipe.PEnt} {s1 s2 t1 t2 : Pi
       simp only [hlk] at h1 h2
       by_cases hj : l10nent.junk = true
       · simp only [hj, ↓reduceIte] at h1 h2
-        cases hm : Pipe.junkMessage env.l10nText l10nent with
+        cases hm : Pipe.junkMessage env.l10nText env.cls l10nent with
         | error e => rw [hm] at h1; cases h1
         | ok msg =>
           simp only [hm] at h1 h2
@@ -500,7 +500,7 @@ theorem step_sync {env : Pipe.Env} {ref l10n : List Pipe.PEnt} {s1 s2 t1 t2 : Pi
         · cases h1
         · rename_i stats hst
           simp only [hst] at h2
-          cases hck : Pipe.runChecker env.ck env.file.locale refent l10nent with
+          cases hck : Pipe.runChecker env.ck refent l10nent with
           | error e => rw [hck] at h1; cases h1
           | ok results =>
             simp only [hck] at h1 h2
@@ -577,9 +577,9 @@ theorem compareParsed_sync {env : Pipe.Env} {ref l10n : List Pipe.PEnt} {a1 a2 b
                 rw [hl.stats]
                 exact ⟨[.stats env.file (Pipe.statsList t2.stats)], stats_run _ _ _, stats_run _ _ _⟩
 
-theorem compareBodyOf_sync (cs : List (Path × ProjPipe.Content)) (md : List (Path × Text)) (c : Call) (junk : Nat)
-    (l1 l2 : ObsList) (r1 r2 : ObsList × List Text × Nat) (hs : SameFilters l1 l2)
-    (h1 : ProjPipe.compareBodyOf cs md c junk l1 = .ok r1) (h2 : ProjPipe.compareBodyOf cs md c junk l2 = .ok r2) :
+theorem compareBodyOf_sync (ext : Pipe.Ext) (cs : List (Path × ProjPipe.Content)) (md : List (Path × Text)) (c : Call)
+    (junk : Nat) (l1 l2 : ObsList) (r1 r2 : ObsList × List Text × Nat) (hs : SameFilters l1 l2)
+    (h1 : ProjPipe.compareBodyOf ext cs md c junk l1 = .ok r1) (h2 : ProjPipe.compareBodyOf ext cs md c junk l2 = .ok r2) :
     r1.2 = r2.2 ∧ ∃ evs, SyncRun l1 l2 r1.1 r2.1 evs := by
   unfold ProjPipe.compareBodyOf at h1 h2
   simp only at h1 h2
@@ -587,9 +587,9 @@ theorem compareBodyOf_sync (cs : List (Path × ProjPipe.Content)) (md : List (Pa
   | none => rw [hfm] at h1; cases h1
   | some fmt =>
     simp only [hfm] at h1 h2
-    cases hck : Pipe.checkerOf fmt with
-    | none => rw [hck] at h1; cases h1
-    | some ck =>
+    cases hck : Pipe.plainFmt fmt with
+    | false => rw [hck] at h1; cases h1
+    | true =>
       simp only [hck] at h1 h2
       cases hrc : ProjPipe.lookupContent cs c.refFull with
       | none => rw [hrc] at h1; cases h1
@@ -610,7 +610,7 @@ theorem compareBodyOf_sync (cs : List (Path × ProjPipe.Content)) (md : List (Pa
               exact ⟨rfl, _, hr⟩
         | text rt =>
           simp only at h1 h2
-          cases hpr : Pipe.parseFile fmt rt.toArray junk with
+          cases hpr : Pipe.parseFile ext fmt rt.toArray junk with
           | error e => rw [hpr] at h1; cases h1
           | ok pr =>
             obtain ⟨ref, junk1⟩ := pr
@@ -634,7 +634,7 @@ theorem compareBodyOf_sync (cs : List (Path × ProjPipe.Content)) (md : List (Pa
                     exact ⟨rfl, _, hr⟩
               | text lt =>
                 simp only at h1 h2
-                cases hpl : Pipe.parseFile fmt lt.toArray junk1 with
+                cases hpl : Pipe.parseFile ext fmt lt.toArray junk1 with
                 | error e => rw [hpl] at h1; cases h1
                 | ok pl =>
                   obtain ⟨l10n, junk2⟩ := pl
@@ -669,10 +669,10 @@ theorem compareBodyOf_sync (cs : List (Path × ProjPipe.Content)) (md : List (Pa
                           subst h1; subst h2
                           exact ⟨rfl, sy⟩
 
-theorem worldOf_compareSync (cwd : Path) (enums : List (Option Text × Except ProjM.PyErr Files)) (existing : List Path)
-    (md : List (Path × Text)) (cs : List (Path × ProjPipe.Content)) :
-    CompareSync (ProjPipe.worldOf cwd enums existing md cs) :=
-  fun c junk l1 l2 r1 r2 hs h1 h2 => compareBodyOf_sync cs md c junk l1 l2 r1 r2 hs h1 h2
+theorem worldOf_compareSync (ext : Pipe.Ext) (cwd : Path) (enums : List (Option Text × Except ProjM.PyErr Files))
+    (existing : List Path) (md : List (Path × Text)) (cs : List (Path × ProjPipe.Content)) :
+    CompareSync (ProjPipe.worldOf ext cwd enums existing md cs) :=
+  fun c junk l1 l2 r1 r2 hs h1 h2 => compareBodyOf_sync ext cs md c junk l1 l2 r1 r2 hs h1 h2
 
 /-! ### two runs of `compareProjects` at two quiet levels -/
 
